@@ -214,6 +214,27 @@ func (s *rtSharder) WhichShard(id string) sharder.Shard {
 	return s.self
 }
 
+// ---------------------------------------------------------------- transmission interceptor
+// rtHookTx forwards to the real transmission; `before` runs first, on the router's handler
+// goroutine, so a driver can park a request at a known point of its handling.
+type rtHookTx struct {
+	inner  transmit.Transmission
+	before func(ev *types.Event)
+}
+
+func (h *rtHookTx) EnqueueEvent(ev *types.Event) {
+	if h.before != nil {
+		h.before(ev)
+	}
+	h.inner.EnqueueEvent(ev)
+}
+func (h *rtHookTx) EnqueueSpan(sp *types.Span) {
+	if h.before != nil {
+		h.before(sp.Event)
+	}
+	h.inner.EnqueueSpan(sp)
+}
+
 // ---------------------------------------------------------------- the node
 type rtNode struct {
 	cfg      *config.MockConfig
